@@ -317,6 +317,8 @@ func applyProfile(c *RunConfig, ch *simrt.Chooser, p string) {
 			// suffrage changes of live members while the leader keeps leading, then the leader
 			// alone with the non-voters
 			c.Ops["membership"] = 4
+			c.Voters = pick(ch, 3, 5, 5, 4)
+			c.Faults["cut_leader_keep_one"] = 2
 			c.Faults["cut_leader_from_voters"] = 4
 			c.Faults["heal"] = 4
 			noDiskErrors()
